@@ -44,7 +44,9 @@ var vf9Kinds = []vf9Kind{
 	{"two-level-raw", cache.RAW, "twolevel"},
 }
 
-var vf9Sizes = map[string]int{"1B": 1, "1blk": 4096, "3blk": 3 * 4096}
+// "3blkZ": three blocks of (almost) zeros: stored compressed it occupies one block on disk,
+// so it FITS where its logical size does not
+var vf9Sizes = map[string]int{"1B": 1, "1blk": 4096, "3blk": 3 * 4096, "3blkZ": 3 * 4096}
 
 type vf9Entry struct {
 	kind    vf9Kind
@@ -65,6 +67,10 @@ func vf9Make(k vf9Kind, size string, suffix string) vf9Entry {
 	vf9Ctr++
 	n := vf9Sizes[size]
 	content := vlib.Bytes(fmt.Sprintf("c09/%d/%s/%s", vf9Ctr, k.name, size), n, false)
+	if strings.HasSuffix(size, "Z") {
+		content = vlib.Zeros(n)
+		copy(content[n-20:], vlib.Bytes(fmt.Sprintf("c09z/%d", vf9Ctr), 20, false))
+	}
 	e := vf9Entry{kind: k, size: size, content: content, suffix: suffix}
 	if k.kind == cache.CAS {
 		e.hash = vlib.Sha(content)
@@ -407,8 +413,8 @@ func TestVfC09(t *testing.T) {
 	deadline := vlib.Deadline()
 	var pops []*vf9Pop
 	sizesFor := map[int][][]string{
-		1: {{"1B"}, {"1blk"}, {"3blk"}},
-		2: {{"1blk", "1blk"}, {"1B", "3blk"}, {"3blk", "1blk"}},
+		1: {{"1B"}, {"1blk"}, {"3blk"}, {"3blkZ"}},
+		2: {{"1blk", "1blk"}, {"1B", "3blk"}, {"3blk", "1blk"}, {"3blkZ", "1blk"}, {"1blk", "3blkZ"}},
 		3: {{"1blk", "1blk", "1blk"}, {"3blk", "1B", "1blk"}, {"1blk", "3blk", "1blk"}, {"1blk", "1B", "3blk"}},
 	}
 	kinds3 := []int{0, 1, 2, 4, 7} // representative kinds for triples (quick)
